@@ -251,6 +251,12 @@ func (R *Repository) activateStagedCRL(entry *Entry, store crlstore.CRLStore) er
 	verifhook.Hit("repo.load.accepting", R, entry)
 	err := entry.CRLStore.Update(store)
 	if err != nil {
+		//the staged crl was not put in place: like a failed update, do not leave its temporary store behind until the next restart
+		store.Close()
+		err2 := store.Delete()
+		if err2 != nil {
+			R.logger.Warn("failed to delete database", zap.Error(err2))
+		}
 		return err
 	}
 	entry.Loaded = true
